@@ -503,7 +503,11 @@ type concResult struct {
 
 func concRun(w *world, run [][]*query) concResult {
 	c, _ := w.build()
-	before := sortedReg(c)
+	// the registry listing "before" is taken from a second, identically built
+	// compiler: nothing may touch c before the goroutines start (a lazily built
+	// cache inside the registry would otherwise be warmed up by the listing)
+	c2, _ := w.build()
+	before := sortedReg(c2)
 	res := make([][]obs, len(run))
 	var wg sync.WaitGroup
 	startCh := make(chan struct{})
